@@ -3,6 +3,6 @@
 cd "$(dirname "${BASH_SOURCE[0]}")/.." || exit 2
 id="$1"; shift
 VERIF_COLLECT_JSON=/tmp/collect_$id.json ./vcheck "$id" --collect "$@" > /tmp/collect_$id.txt 2>&1
-grep -E "HARNESS|Traceback" -A12 /tmp/collect_$id.txt | head -40
+grep -E "^[A-Za-z_.]+(Error|Exception|Timeout)[:(]|^  File \"/verif/checks|^  File \"/verif/vlib/(gen|layouts|oracle|tab|cases|models)" -A1 /tmp/collect_$id.txt | grep -v "^--" | sort | uniq -c | sort -rn | head -12
 grep -E "^ +[0-9]+  " /tmp/collect_$id.txt | awk '{c=$1; $1=""; print c, substr($0,1,330)}' | sort -k2,2 -k1,1nr | head -${TRIAGE_N:-60}
 grep "^# refusals" /tmp/collect_$id.txt | cut -c1-400; grep "^# collect" /tmp/collect_$id.txt
